@@ -1746,7 +1746,16 @@ def c13():
     # reference outputs: every instance alone, in a separate fresh process per program (nothing but earlier solo runs of the
     # same program has happened there); the replay process below is compared with these, so that state left behind by
     # OTHER tables, codecs or instances earlier in the replay process shows
-    run_programs(ok, "c13base", timeout=2400, env_extra={"VERIF_GOMAXPROCS": "1", "VERIF_SCHED_PHASE": "baseline"}, drop=False)
+    # the second, reversed pass over the solo runs (see the driver): every case in the quick tier; in the thorough tier the long-run,
+    # failing-instance and shared-options cases and every fifth of the thousands of plain schedules (the pass doubles the
+    # reference process' work)
+    for p in ok:
+        for k, c in enumerate(p.cases):
+            sc = c["sched"]
+            special = len(sc["insts"]) > 2 or any("failat" in i or i.get("sharedopts") for i in sc["insts"]) or sc["schedule"][0][1] > 9000
+            sc["repeat"] = bool(q or special or k % 5 == 0)
+    ck.cov["cases_with_repeated_solo_runs"] = sum(1 for p in ok for c in p.cases if c["sched"]["repeat"])
+    run_programs(ok, "c13base", timeout=7200, env_extra={"VERIF_GOMAXPROCS": "1", "VERIF_SCHED_PHASE": "baseline"}, drop=False)
     for p in ok:
         k = -1
         for e in p.events:
@@ -1757,7 +1766,7 @@ def c13():
                 p.cases[k]["sched"]["unstable"] = e.get("unstable", [])
         if any("baseline" not in c["sched"] for c in p.cases):
             raise HarnessError("baseline process of %s did not cover every case" % p.key)
-    run_programs(ok, "c13", timeout=2400, env_extra={"VERIF_GOMAXPROCS": "1"})
+    run_programs(ok, "c13", timeout=7200, env_extra={"VERIF_GOMAXPROCS": "1"})
     sw = sum(e.get("switches", 0) for p in ok for e in p.events if e.get("ev") == "Sched")
     ck.cov["context_switches_replayed"] = sw
     ck.sample({"program": ok[0].key, "schedule": ok[0].cases[len(ok[0].cases) // 2]["sched"]["schedule"], "instances": "writer(snappy,page 2) || writer(gzip,page 3)"})
